@@ -189,11 +189,10 @@ def c04c(ctx):
         ctx.check(ok, 'MetaGrid.%s:uses-_meta_size' % u, 'meta geometry of this function goes through _meta_size(<level>)', f)
     # split pattern: column offset with tile_size[0] + left buffer, row offset with tile_size[1] + top buffer
     tp = ctx.fn(G + ':MetaGrid._tiles_pattern')
-    ys = [x for x in tp.walk() if isinstance(x, ast.Yield)]
-    ok = len(ys) == 1 and isinstance(ys[0].value, ast.Tuple) and isinstance(ys[0].value.elts[1], ast.Tuple)
-    if ok:
-        ex, ey = ys[0].value.elts[1].elts
-        ok = 'tile_size[0]' in unparse(ex) and 'buffers[0]' in unparse(ex) and 'tile_size[1]' in unparse(ey) and 'buffers[3]' in unparse(ey)
+    from ..util import tiles_pattern_facts
+    pf = tiles_pattern_facts(tp)
+    ok = pf is not None and pf['x'] == sorted([['buffers[0]'], sorted([pf['col'], 'self.grid.tile_size[0]'])]) and \
+        pf['y'] == sorted([['buffers[3]'], sorted([pf['row'], 'self.grid.tile_size[1]'])])
     ctx.check(ok, 'MetaGrid._tiles_pattern:offsets', 'crop x = col * tile_size[0] + left buffer, crop y = row * tile_size[1] + top buffer', tp,
               fail='the crop pattern does not use the tile size / buffer of the matching axis')
     reps = [r for f in ctx.repo.fns_in(G + ':MetaGrid.') for r in axis_reports(f)]
